@@ -100,6 +100,10 @@ func init() {
 	suites["C06"] = func(c *Ctx) (string, error) {
 		var cases []Case
 		pool, cl := stringInputs(c)
+		for _, d := range byteNeighbourhood([]string{`"ab\n\u00e9\ud83d\ude00c"`, ` "x" `, `"\"\\\/\b"`, `"\ud800\u0041"`, `"é𝄞"`}) {
+			pool = append(pool, d)
+			cl = append(cl, "neighbourhood")
+		}
 		for i, d := range pool {
 			h := hx(d)
 			impl := runAPI("ReadStringBytes", []string{h, "-"})
